@@ -440,6 +440,17 @@ def rule_noprov(ctx, prop: str) -> RuleResult:
             if isinstance(p, ast.Assign) and isinstance(p.targets[0], ast.Name):
                 key2 = (f.file, f"{f.qualname}#{p.targets[0].id}")
             expect_none = key in NOPROV_EXPECT_NONE or (key2 in NOPROV_EXPECT_NONE if key2 else False)
+            if not expect_none and key2 is not None:
+                # the table names the site by the local it is assigned to; if that local was renamed, the
+                # site is still recognisable as THE one call of this function that carries no provenance
+                # (one table entry for the function, one such call)
+                ents = [k for k in NOPROV_EXPECT_NONE if k[0] == f.file and k[1].startswith(f.qualname + "#")]
+                tgt_names = {pp.targets[0].id for cc in _procedure_calls(f) for pp in [parent(cc)] if isinstance(pp, ast.Assign) and isinstance(pp.targets[0], ast.Name)}
+                if len(ents) == 1 and ents[0][1].split("#", 1)[1] not in tgt_names and not has:
+                    lacking = [cc for cc in _procedure_calls(f) if not any(kw.arg == "_provenance_eq_Procedure" for kw in cc.keywords) and len(cc.args) < 2]
+                    if len(lacking) == 1 and lacking[0] is c:
+                        expect_none = True
+                        key2 = ents[0]
             if key2 and (f.file, f"{f.qualname}#subproc") in NOPROV_EXPECT_NONE and key2[1].endswith("#proc"):
                 expect_none = False
             if expect_none:
